@@ -229,7 +229,8 @@ func (c *Ctl) fail(format string, a ...interface{}) {
 // Loop drives the execution: wait for quiescence, list the enabled actors, take the next choice
 // (replayed prefix first, then default = entry 0), until nothing is enabled and done() holds.
 func (c *Ctl) Loop(done func() bool) {
-	idle := 0
+	idle, level := 0, 0
+	idleSteps := []time.Duration{100 * time.Millisecond, time.Second, 30 * time.Second, 0}
 	for steps := 0; ; steps++ {
 		synctest.Wait()
 		if c.EngineErr != "" {
@@ -240,19 +241,27 @@ func (c *Ctl) Loop(done func() bool) {
 			if done() {
 				return
 			}
-			if idle < 3 { // at most three horizon sleeps per execution (not consecutive: never reset)
-				// nothing can happen now: let fake time run so that every pending deadline,
-				// back-off or ticker expires (costs no wall-clock time)
-				idle++
-				if os.Getenv("VERIF_LOG") != "" {
-					fmt.Printf("[gx] nothing enabled after %d choices: horizon sleep %d\n", len(c.Choices), idle)
+			// nothing can happen now: let fake time run so that pending back-offs, deadlines and tickers
+			// expire (costs no wall-clock time). Escalating: first just enough for a back-off (100 ms), then a
+			// second, then the long horizon; the level resets when something became enabled, the total
+			// number of idle sleeps per execution is capped.
+			if idle < 12 && level < len(idleSteps) {
+				d := idleSteps[level]
+				if level == len(idleSteps)-1 {
+					d = c.Horizon
 				}
-				time.Sleep(c.Horizon)
+				idle++
+				level++
+				if os.Getenv("VERIF_LOG") != "" {
+					fmt.Printf("[gx] nothing enabled after %d choices: idle sleep %v (#%d)\n", len(c.Choices), d, idle)
+				}
+				time.Sleep(d)
 				continue
 			}
 			c.Stuck = true
 			return
 		}
+		level = 0
 		if steps >= c.MaxSteps {
 			c.StepLimit = true
 			return
